@@ -9,6 +9,7 @@ import c09
 import c11
 import c05
 import c03
+import c06
 import c12
 import ensemble as ens
 
@@ -16,7 +17,7 @@ PID = "C02"
 
 
 def translate():
-    c04.translate(); c12.translate(); c09.translate(); c11.translate(); c05.translate(); c03.translate()
+    c04.translate(); c12.translate(); c09.translate(); c11.translate(); c05.translate(); c03.translate(); c06.translate()
 
 
 def validate(run, tier):
@@ -80,6 +81,21 @@ def validate(run, tier):
         e, se = ens.stats([r["logz"] for r in res], ens.TARGETS[tname]["logz"])
         run.extra["ensemble"].append(dict(cfg=f"{tname} {cfg}", n_particles=npart, runs=Rc, logz_err=round(e, 4), se=round(se, 4)))
         if abs(e) > 4 * se + 0.06:
+            run.fail("evidence-biased", f"{tname}, {Rc} seeds, {npart} particles: mean log-evidence error {e:+.3f} (se {se:.3f})", **what)
+    # four dimensions, random-walk kernel, multinomial resampling (the kernel takes few local steps: what resampling hands it matters);
+    # and a strongly correlated posterior with the default kernel
+    for tname, cfg, npart, Rc in (("interior4", dict(clustering=False, sample="rwm", resample="mult"), 128, 96),
+                                  ("corr", dict(clustering=False), 128, 96)):
+        res = ens.run_ensemble(tname, cfg, Rc, npart, 7900)
+        what = dict(target=tname, cfg=cfg, runs=Rc, n_particles=npart, seeds="7900..")
+        bad = [r for r in res if not r["ok"]]
+        if bad:
+            run.fail("ensemble-run-raises", f"{len(bad)} of {Rc} runs raised: {bad[0]['err']}", **what)
+            continue
+        run.case(key=("logz", tname, str(cfg)), nontrivial=True)
+        e, se = ens.stats([r["logz"] for r in res], ens.TARGETS[tname]["logz"])
+        run.extra["ensemble"].append(dict(cfg=f"{tname} {cfg}", n_particles=npart, runs=Rc, logz_err=round(e, 4), se=round(se, 4)))
+        if abs(e) > 4 * se + 0.05:
             run.fail("evidence-biased", f"{tname}, {Rc} seeds, {npart} particles: mean log-evidence error {e:+.3f} (se {se:.3f})", **what)
     # a bimodal target (mode masses 0.3 / 0.7) with clustering: the evidence is the sum over the modes
     for npart, Rb in ((64, 48),) if tier == "quick" else ((64, 96), (256, 96)):
@@ -183,7 +199,7 @@ def main(tier, seed):
     except Exception as e:  # fail closed: anything the translator cannot digest
         run.obligation("translate:all generated pieces used by C02", False, str(e))
     run.prove("Props/C02.v", link_rels=["Link/MIS.v", "Link/Posterior.v", "Link/Seeding.v"], allowed_axioms=STDLIB_AXIOMS_REALS)
-    run.prove("Props/C02W.v", link_rels=["Link/Warmup.v", "Link/Schedule.v", "Link/Kernel.v", "Link/Shift.v"], allowed_axioms=STDLIB_AXIOMS_REALS)
+    run.prove("Props/C02W.v", link_rels=["Link/Warmup.v", "Link/Schedule.v", "Link/Kernel.v", "Link/Shift.v", "Link/Resample.v"], allowed_axioms=STDLIB_AXIOMS_REALS)
     try:
         exact_history_evidence(run)
         validate(run, tier)
